@@ -201,6 +201,20 @@ def h_full_vs_tt(ctx, ns, sym_box):
              for k in range(d)]
         A = teneva.func_int(Y)
         ctx.claim('dense_coefficients_equal_tt', ctx.all_eq(ref_full(A), Af))
+    if d >= 2:
+        # dense re-sampling on a grid with a different size per mode (not a palindrome)
+        ms = [ns[k] + 1 + k for k in range(d)]
+        Zf = teneva.func_gets_full(Af, a, b, ms)
+        ctx.claim('dense_resampled_shape', tuple(Zf.shape) == tuple(ms))
+        if tuple(Zf.shape) == tuple(ms):
+            newn = [cheb_nodes(ctx, ms[k], a[k], b[k]) for k in range(d)]
+            okr = []
+            for idx in multi_indices(ms):
+                p = 1
+                for k in range(d):
+                    p = p * polyval(coef[k], newn[k][idx[k]])
+                okr.append(ctx.eq(Zf[idx], p))
+            ctx.claim('dense_resampling_gives_f_at_new_nodes', ctx.all_(okr))
     exact = 1
     for k in range(d):
         exact = exact * polyint(ctx, coef[k], a[k], b[k])
